@@ -31,6 +31,32 @@ MODEL = {
 U8 = ("ev_uint8_t", "uint8_t", "unsigned char")
 
 
+def rule_rtrim(P):
+    """evutil_rtrim_lws_ in byte memory: exactly the trailing SP/HT bytes go, also when nothing else is left"""
+    from ..cmem import MEM0, mem_put, mem_str, mem_hook
+    from ..interp import run_all
+    r = Rule("C41-rtrim", "K6", "evutil_rtrim_lws_ removes exactly the trailing spaces and tabs of a string (all of it, if it has nothing else) and writes nowhere else", floor=12)
+    f = P.fn("evutil_rtrim_lws_")
+    for t in (b"", b" ", b"\t", b"  ", b" \t \t", b"a", b"a ", b"a \t", b" a", b" a ", b"ab  ", b"a b ", b"a\t\tb\t", b"x" * 9 + b" " * 3, b"\n ", b" \n"):
+        env = {"#typed": 1, "#bytemem": 1, f.params[0][0]: MEM0 + 8}
+        for k in range(8):
+            env[("m", MEM0 + k)] = 0x20           # spaces in front of the string: must stay
+        mem_put(env, MEM0 + 8, t)
+        outs = [o for o in run_all(f, (f.entry, 0), env, lambda el: False, P, mem_hook(P), max_steps=600) if not (o.kind == "exit" and o.why == "noreturn")]
+        want = t.rstrip(b" \t")
+        for o in outs:
+            if o.kind not in ("ret", "exit"):
+                r.brk("evutil_rtrim_lws_(%r): %s %s" % (t, o.kind, o.why))
+                return r
+            got = mem_str(o.env, MEM0 + 8)
+            front = all(o.env.get(("m", MEM0 + k)) == 0x20 for k in range(8))
+            r.inst(t, {"input": t.decode("latin-1"), "result": got.decode("latin-1") if got is not None else None, "bytes_in_front_untouched": front})
+            if got != want or not front or o.env.get("#oob"):
+                r.bad("K6:evutil_rtrim_lws_:trim", "%s:%d" % (f.file, f.line), f.name, "input %r: result %r (expected %r)%s%s" % (t, got, want, "" if front else "; bytes in front of the string were written",
+                                                                                                                         ("; " + o.env["#oob"]) if o.env.get("#oob") else ""))
+    return r
+
+
 def run(ctx, config):
     P = ctx.prog(UNITS, config)
     rules = []
@@ -223,4 +249,5 @@ def run(ctx, config):
     for x in (r3,):
         x.obligations = x.instances
         x.discharged = x.instances - len(x.findings)
+    rules.append(rule_rtrim(P))
     return rules
